@@ -90,6 +90,7 @@ const (
 	epochBase      = 200 // the base request's epoch
 	epochOlderOK   = 180 // still kept, consumers paired
 	epochUnpaired  = 160 // still kept, nobody paired
+	epochSplit     = 190 // still kept, the chain pairs only the second key of the project (consumer2)
 	epochBoundary  = 120 // == oldest-kept boundary when the provider is at epochNow (validity not judged)
 	epochTooOld    = 100
 	epochNow       = 220 // provider's current epoch in the "valid" epoch world
@@ -161,6 +162,8 @@ func (m *mockChain) pairs(consumer string, epoch uint64) bool {
 	switch epoch {
 	case epochBase, epochOlderOK, epochBoundary, epochTooOld, epochFarFuture:
 		return epoch <= m.current
+	case epochSplit:
+		return consumer == m.u.consumer2.Addr.String() && epoch <= m.current
 	}
 	return false
 }
@@ -200,9 +203,10 @@ const (
 	priorFresh   prior = iota // nothing registered
 	priorServed1              // consumer served relay 1 (cu 10) on session 1 at epochBase; the request under test is relay 2
 	priorTight                // like served1 but the project's max CU is 15
+	priorSplit                // like served1, and the project's second key served a relay at epochSplit (where only it is paired)
 )
 
-var priorName = map[prior]string{priorFresh: "fresh", priorServed1: "served1", priorTight: "served1-tightcu"}
+var priorName = map[prior]string{priorFresh: "fresh", priorServed1: "served1", priorTight: "served1-tightcu", priorSplit: "served1+other-key-served-at-split-epoch"}
 
 type worldCfg struct {
 	prior   prior
@@ -251,6 +255,17 @@ func newWorld(u *universe, cfg worldCfg) *world {
 		s, _, _, err := w.srv.VerifInitRelay(context.Background(), req.req)
 		must(err)
 		must(w.psm.OnSessionDone(s, req.req.RelaySession.RelayNum))
+	}
+	if cfg.prior == priorSplit {
+		// the second key of the same project is verified and served at epochSplit: the project is now registered there
+		other := u.consumer2
+		req := buildRequest(u, worldCfg{prior: priorFresh}, []applied{
+			{corruption{field: "Signer", variant: "other-paired-consumer-key", signer: &other}, before},
+			{corruption{field: "RelaySession.Epoch", variant: "split", sess: func(w *world, s *session) { s.Epoch = epochSplit }}, before},
+		})
+		s2, _, _, err := w.srv.VerifInitRelay(context.Background(), req.req)
+		must(err)
+		must(w.psm.OnSessionDone(s2, req.req.RelaySession.RelayNum))
 	}
 	w.chain.mode = cfg.mode
 	if cfg.blocked {
@@ -480,6 +495,7 @@ func catalogue(u *universe) []corruption {
 		S("LavaChainId", "lav", func(w *world, s *session) { s.LavaChainId = "lav" }),
 		benign(S("Epoch", "older-kept-paired", func(w *world, s *session) { s.Epoch = epochOlderOK })),
 		S("Epoch", "kept-unpaired", func(w *world, s *session) { s.Epoch = epochUnpaired }),
+		S("Epoch", "kept-paired-only-for-the-other-key", func(w *world, s *session) { s.Epoch = epochSplit }),
 		S("Epoch", "boundary", func(w *world, s *session) { s.Epoch = epochBoundary }),
 		S("Epoch", "too-old", func(w *world, s *session) { s.Epoch = epochTooOld }),
 		S("Epoch", "zero", func(w *world, s *session) { s.Epoch = 0 }),
@@ -920,6 +936,7 @@ func worlds() []worldCfg {
 			out = append(out, worldCfg{priorServed1, m, blocked})
 		}
 		out = append(out, worldCfg{priorTight, modeValid, blocked})
+		out = append(out, worldCfg{priorSplit, modeValid, blocked})
 	}
 	return out
 }
